@@ -4,7 +4,8 @@ P22 = "Claripy.Props.C22."
 V = "Claripy.VSA."
 THEOREMS_C21 = [P21 + n for n in ("C21_add_sound", "C21_add_closed", "C21_sub_sound", "C21_sub_closed", "C21_neg_sound",
                                   "C21_not_sound", "C21_zext_sound", "C21_ucmp_sound", "C21_scmp_sound", "C21_cast_low_sound", "C21_extract_sound", "C21_sext_sound", "C21_udiv_sound", "C21_lshr_sound", "C21_shl_sound", "C21_or_sound", "C21_warren_bounds", "C21_and_sound", "C21_xor_sound", "C21_concat_sound", "C21_ashr_sound", "C21_eq_sound", "eq_unaligned_unsound", "C21_mul_aligned", "C21_mul_closed", "C21_mod_sound_partial",
-                                  "sdiv_unsound", "mul_unaligned_unsound")] + \
+                                  "sdiv_unsound", "mul_unaligned_unsound",
+                                  "C21_add_aligned", "C21_sub_aligned", "C21_neg_not_aligned", "C21_or_aligned", "C21_and_xor_aligned", "C21_mul_result_aligned", "C21_udiv_aligned", "C21_mod_aligned", "C21_shift_aligned", "C21_cast_low_aligned", "C21_extract_aligned", "C21_ext_aligned", "C21_concat_aligned")] + \
                [V + n for n in ("ssplit_spec", "ssplit_wrap", "not_sound", "zext_sound", "ucmp_sound", "cmpWith_sound",
                                 "unsignedBounds_spec", "not_piece_mem", "widen_bits_mem",
                                 "udiv_sound", "wudiv_piece", "overRange_sup", "rshiftLogicalK_sound", "rshift_piece_mem", "lshr_sound",
@@ -18,16 +19,19 @@ THEOREMS_C21 = [P21 + n for n in ("C21_add_sound", "C21_add_closed", "C21_sub_so
                                 "concat_sound", "zeroExtend_bounds", "pj_low", "lshiftK_multiples",
                                 "ashr_sound", "rshiftArithK_sound", "ashrPiece_spec", "ashr_roundTo", "rshiftArithK_succ", "unionLoop_sup",
                                 "mul_sound", "mulPair_sound", "umul_piece", "smul_piece", "prod_interval", "finInterval", "psplit_aligned", "mul_eq", "mulOuter_mem",
-                                "mod_sound", "modPair_sound", "udivPiece_spec", "mod_eq")]
+                                "mod_sound", "modPair_sound", "udivPiece_spec", "mod_eq",
+                                "aligned_of_mem_ub", "mem_ub_of_aligned", "new_aligned_of_mem", "add_aligned", "sub_aligned", "neg_aligned", "not_aligned", "zext_aligned", "shl_aligned", "lshr_aligned", "lshiftK_aligned", "rshiftLogicalK_aligned", "overRange_aligned", "castLow_aligned", "extract_aligned", "udiv_aligned", "mul_aligned", "mod_aligned", "orPiece_aligned", "or_aligned", "and_aligned", "xor_aligned", "ashr_aligned", "ashrPiece_aligned", "rshiftArithK_aligned", "sext_aligned", "concat_aligned", "lshiftK_aligned_of")]
 TESTS_C21 = [P21 + "test_add_example"]
 THEOREMS_C22 = [P22 + n for n in ("C22_top_mem", "C22_new_mem", "C22_pseudo_join_sup", "C22_lub_sup", "C22_union_sup",
                                   "C22_members_exact", "C22_cardinality_exact", "C22_solution_exact", "C22_eval_exact", "C22_min_max_bound", "C22_min_exact", "C22_max_exact_aligned", "C22_signed_min_max_bound",
                                   "widen_unsound", "widen_wrap_unsound", "widen_offset_unsound",
-                                  "meet_unaligned_unsound", "max_unaligned_wrong", "C22_meet_aligned", "C22_meet_closed", "meet_nonnormal_unsound")] + \
+                                  "meet_unaligned_unsound", "max_unaligned_wrong", "C22_meet_aligned", "C22_meet_closed", "meet_nonnormal_unsound",
+                                  "C22_join_aligned", "C22_meet_result_aligned", "widen_breaks_alignment")] + \
                [V + n for n in ("pseudoJoin_sup", "pseudoJoin_WF", "lub_sup", "union_sup", "contain_abs", "overlap_abs", "disjoint_abs",
                                 "isSurrounded_true", "isSurrounded_false", "reduceJoin_sup", "renorm_mem",
                                 "mem_members", "members_nodup", "cardinality_exact", "solution_exact", "multiMeet_int",
                                 "eval_exact", "evalLoop_spec", "min_le", "le_max", "smin_le", "le_smax", "min_attained", "max_attained", "mem_ub", "signedBounds_spec", "unsignedBounds_spec",
                                 "meet_sound", "multiMeet_sound", "multiMeet_proper_sound", "mci_order", "minimalCommonInteger_spec", "mci_spec", "diop_spec", "diopCore_spec", "extendedEuclid_spec",
-                                "geo_C1", "geo_C2", "geo_C3a", "geo_C3b", "geo_C3c", "geo_C4", "geo_C5", "geo_C6", "geo_C7", "geo_none", "aligned_two", "meetFrom_mem")]
+                                "geo_C1", "geo_C2", "geo_C3a", "geo_C3b", "geo_C3c", "geo_C4", "geo_C5", "geo_C6", "geo_C7", "geo_none", "aligned_two", "meetFrom_mem",
+                                "pseudoJoin_aligned", "pseudoJoin_ub", "lub_aligned", "union_aligned", "multiMeet_aligned", "meet_aligned", "meetFin_aligned")]
 TESTS_C22 = [P22 + "test_join_example"]
